@@ -7,7 +7,7 @@ CONSTANTS
   Ks = {0, 1, 2}
   Fmts = {"bc", "bc_idx", "idx_bc"}
   NFiles = {1}
-  Lazy = {FALSE}
+  Lazy = {"none"}
   Touches = {"lookup"}
   Variant = "design"
 CONSTRAINT Emit
